@@ -208,6 +208,55 @@ def check_unpivot(case):
     return v, 'ok' if not v else 'violated', len(unp) > 0 and case['nrows'] > 0
 
 
+def check_unpivot_two(case):
+    """Two selected resources whose unpivoted columns differ, their row iterators pulled in an order other than one after the
+    other: every resource must come out exactly as the same step gives it when it is the only resource (differential)."""
+    import itertools as it_
+    spec, regex = SPECS[case['spec']]
+    sets = [['id', 'x1', 'x2'], ['id', 'x2', 'x3', 'y'], ['id', 'y']][:case['nres']]
+    res = []
+    for k, fields in enumerate(sets):
+        rows = [{f: ('%s%d%d' % (f, k, i) if (i + j) % 3 else None) if f != 'id' else 10 * k + i for j, f in enumerate(fields)}
+                for i in range(case['nrows'])]
+        res.append(('r%d' % k, [(f, 'integer' if f == 'id' else 'string') for f in fields], rows))
+    extra_keys = [{'name': 'k', 'type': 'string'}]
+    if case['spec'] in ('constant', 'hetero-keys'):
+        extra_keys.append({'name': 'n', 'type': 'integer'})
+
+    def step():
+        return core.dataflows.unpivot(copy.deepcopy(spec['unpivot_fields']), copy.deepcopy(extra_keys), {'name': 'v', 'type': 'string'},
+                                      regex=regex, resources=None)
+    label = 'unpivot(%s) over %d resources with fields %r, %d rows each, iterators pulled %s' % (case['spec'], len(sets), sets, case['nrows'], case['order'])
+    try:
+        alone = []
+        for r in res:
+            alone.append(core.materialise(core.from_state(mkstate([r])), step(), via='results_raw').rows[0])
+        ds = core.Flow(core.from_state(mkstate(res), sequential=False), step()).datastream()
+        its = list(ds.res_iter)
+        got = [[] for _ in its]
+        if case['order'] == 'all-requested-first':
+            for k, i_ in enumerate(its):
+                got[k] = list(i_)
+        elif case['order'] == 'last-first':
+            for k in reversed(range(len(its))):
+                got[k] = list(its[k])
+        else:     # 'lockstep'
+            for tup in it_.zip_longest(*its):
+                for k, r in enumerate(tup):
+                    if r is not None:
+                        got[k].append(r)
+    except core.CaseTimeout:
+        raise
+    except Exception as e:
+        return [('raises/unpivot-two', '%s raises %s: %s' % (label, core.exc_sig(e), str(e)[:80]))], 'violated', True
+    v = []
+    for k, (g, a) in enumerate(zip(got, alone)):
+        if enc_rows(g) != enc_rows(a):
+            v.append(('rows/unpivot-out-of-order', '%s: resource r%d comes out as %r, alone it gives %r' % (label, k, g[:3], a[:3])))
+            break
+    return v, 'ok' if not v else 'violated', case['nrows'] > 0
+
+
 def tables(maxrows):
     for n in range(maxrows + 1):
         for t in itertools.product(CELLS, repeat=n):
@@ -258,6 +307,12 @@ def cases(tier):
                 out.append({'proc': 'unpivot', 'fields': fs, 'spec': spec, 'nrows': nrows})
                 if nrows == 2 and len(fs) <= 3:
                     out.append({'proc': 'unpivot', 'fields': fs, 'spec': spec, 'nrows': nrows, 'rerun': True})
+    for spec in SPECS:
+        if SPECS[spec][1]:
+            for nres in (2, 3):
+                for nrows in (1, 2):
+                    for order in ('all-requested-first', 'last-first', 'lockstep'):
+                        out.append({'proc': 'unpivot_two', 'spec': spec, 'nres': nres, 'nrows': nrows, 'order': order})
     return out
 
 
